@@ -241,6 +241,11 @@ class Specifier(BaseSpecifier):
             match.group("version").strip(),
         )
 
+        # Under re.IGNORECASE a few non-ASCII characters match ASCII letters;
+        # only the arbitrary equality operator may carry non-ASCII text.
+        if self._spec[0] != "===" and not self._spec[1].isascii():
+            raise InvalidSpecifier(f"Invalid specifier: {spec!r}")
+
         # Store whether or not this Specifier should accept prereleases
         self._prereleases = prereleases
 
